@@ -204,7 +204,14 @@ def run(ctx, rep, tier):
             has_move = v.get("state[DFTransition.End]")
             if has_move is True:
                 errh = next((b for k, b in v.items() if k.endswith(".error_handling")), None)
-                rep.check(st_acc is True and errh is True, "C17.d", ESB, "an existing End move is only skipped for an accepting state's error path",
+                # F-111: a consuming Else (End not listed, not a fall-through: the restart of a wait) stands for data and is not taken at end-of-input either
+                listed = next((b for k, b in v.items() if k.startswith("DFTransition.End in ") and k.endswith(".on_values")), None)
+                if listed is None:
+                    nl = next((b for k, b in v.items() if k.startswith("DFTransition.End not in ") and k.endswith(".on_values")), None)
+                    listed = None if nl is None else (not nl)
+                fallt = next((b for k, b in v.items() if k.endswith(".is_fallthrough")), None)
+                data_else = listed is False and fallt is False
+                rep.check((st_acc is True and errh is True) or data_else, "C17.d", ESB, "an existing End move is only skipped for an accepting state's error path (or when it is a consuming Else: data)",
                           "the state's End move is dropped although the state is not accepting (or the move is not an error path): `try { \"abc\"; } catch { end; }` can no "
                           "longer reach its handler at end-of-input")
             rep.check(st_acc is not None and rets[0].a == ("DONE" if st_acc else "FAIL"), "C17.d", ESB, f"no end move: DONE iff accepting [{key}]",
@@ -326,8 +333,29 @@ def _end_is_not_a_character(ctx, rep, tier):
     rep.check(len(att) == 1 and "char_actions" not in ast.unparse(att[0]) and "self.start_actions" in ast.unparse(att[0]) and "self.finish_actions" in ast.unparse(att[0]), "C17.l", q,
               "the End transition of an `end` pattern carries start and finish actions only", "`s += (\"ab\" end);` appends a phantom byte (0xff, the placeholder end() defines for the current byte) when end() is called")
     q = "ForeachNode.convert"
-    ok = model.has(q, "if set(transition.on_values) == {DFTransition.End}:\n    continue\ntransition.attach(*self.each_actions, prepend=True)")
+    ok = model.has(q, "if set(transition.on_values) == {DFTransition.End}:\n    continue\ntransition.attach(*self.each_actions, prepend=True)") or \
+        model.has(q, "if set(transition.on_values) == {DFTransition.End}:\n    continue\ntransition.attach_for_this_byte(*self.each_actions)")
     rep.check(ok, "C17.l", q, "foreach skips transitions that consume only end-of-input", "`foreach { \"ab\"; end; } do { n = [n + 1]; }` counts end-of-input as a character")
+
+
+def _consuming_else_is_data(ctx, rep, tier):
+    """C17.m (F-111): DFState.__getitem__ answers for End with the Else transition when End is not listed. That fallback is right for non-consuming steps (they re-dispatch);
+    an Else that TAKES a byte - the restart transition of a wait - is a data pattern: end() must not take it, nor perform its actions (the per-character actions of an
+    enclosing foreach ran once more, for a byte that does not exist)."""
+    import ast
+    model = ctx.model
+    rep.rule("C17.m", "end() does not take a consuming Else (End not listed, not a fall-through) as its End move")
+    fn = model.func(ESB)
+    body = strip_doc(fn.body)
+    i_lookup = next((i for i, st in enumerate(body) if isinstance(st, ast.Assign) and ast.unparse(st.value) == "state[DFTransition.End]"), None)
+    i_render = next((i for i, st in enumerate(body) if "_generate_transition_body(unconditional_end_transition" in ast.unparse(st)), None)
+    guards = [i for i, st in enumerate(body) if isinstance(st, ast.If) and
+              ast.unparse(st.test) == "unconditional_end_transition and DFTransition.End not in unconditional_end_transition.on_values and (not unconditional_end_transition.is_fallthrough)" and
+              [ast.unparse(x) for x in st.body] == ["unconditional_end_transition = None"]]
+    rep.check(i_lookup is not None and i_render is not None and len(guards) == 1 and i_lookup < guards[0] < i_render, "C17.m", ESB,
+              "between the lookup and the rendering: a move that does not list End and consumes is dropped",
+              "end() follows the Else fallback of the End lookup into a CONSUMING transition (the restart of a wait): its actions run for a byte that does not exist - "
+              "`foreach { wait \"ba\"; } do { n = [n + 1]; each(); }` calls each() at end-of-input")
 
 
 _run_l = run
@@ -336,3 +364,4 @@ _run_l = run
 def run(ctx, rep, tier):
     _run_l(ctx, rep, tier)
     _end_is_not_a_character(ctx, rep, tier)
+    _consuming_else_is_data(ctx, rep, tier)
